@@ -43,6 +43,11 @@ var (
 	TwinOnly = os.Getenv("QV_TWINONLY") == "1"
 )
 
+type sgdSlot struct {
+	opt *optimizers.SGD
+	w   Tensor
+}
+
 func NewRegistry() *Registry { return &Registry{objs: map[int]any{}} }
 
 func (r *Registry) get(inst int, make func() (any, error)) (any, error) {
@@ -465,22 +470,23 @@ func apply(reg *Registry, op string, par Par, args []Tensor, cp func([]int) []in
 		if !par.Nil {
 			conf = &optimizers.SGDConfig{LearningRate: par.K.Float()}
 		}
-		w := a
 		o, err := reg.get(par.Inst, func() (any, error) {
 			opt := optimizers.NewSGD(conf)
 			if conf != nil {
 				conf.LearningRate = 12345 // overwritten after construction: the optimizer must keep the rate it was built with
 			}
-			return opt, nil
+			return &sgdSlot{opt: opt}, nil
 		})
 		if err != nil {
 			return nil, err
 		}
-		opt := o.(*optimizers.SGD)
-		if err := opt.Update(&w); err != nil {
+		// one optimizer object comes with ONE pointer variable, re-bound to whatever tensor is updated next
+		slot := o.(*sgdSlot)
+		slot.w = a
+		if err := slot.opt.Update(&slot.w); err != nil {
 			return nil, err
 		}
-		return w, nil
+		return slot.w, nil
 	case "fc":
 		// args: W, B, x; the layer is constructed with default initializers and its
 		// parameters replaced through the Weights() pointers
